@@ -1,4 +1,5 @@
 import CwPlus.Props.C07
+import CwPlus.Props.Cw1SubkeysMigrate
 /-!
 # C17 — cw1: the admin set changes only by admins while mutable; freezing is permanent
 
@@ -397,6 +398,366 @@ theorem Sk.grant_keys_valid (V : String → Prop) {m0 : Cw1Subkeys.InstMsg} {s0 
     simp only [Sk.run, List.foldl_cons]
     exact ih (fun o ho => hops o (List.mem_cons_of_mem _ ho)) (Sk.step_keys hinit op.1 op.2.1 (hops op (by simp)))
 
+/-! ## Exact effect and exact success conditions of the admin-guarded calls -/
+
+/-- `map_validate` succeeds exactly when every entry validates, and then returns the submitted strings as they
+are: same order, duplicates kept. -/
+theorem mapValidate_ok_iff (l : List AddrArg) (a : List Addr) :
+    mapValidate l = .ok a ↔ (∀ x ∈ l, x.valid = true) ∧ a = l.map (·.text) := by
+  induction l generalizing a with
+  | nil => simp [mapValidate]
+  | cons x rest ih =>
+    have key : mapValidate (x :: rest) = .ok a ↔ x.valid = true ∧ ∃ r, mapValidate rest = .ok r ∧ x.text :: r = a := by
+      simp [mapValidate]
+    rw [key]
+    constructor
+    · rintro ⟨hx, r, hr, rfl⟩
+      obtain ⟨h1, rfl⟩ := (ih r).mp hr
+      refine ⟨?_, rfl⟩
+      intro y hy
+      rcases List.mem_cons.mp hy with rfl | hy
+      · exact hx
+      · exact h1 y hy
+    · rintro ⟨hall, rfl⟩
+      exact ⟨hall x (by simp), _, (ih _).mpr ⟨fun y hy => hall y (by simp [hy]), rfl⟩, rfl⟩
+
+theorem mapValidate_isOk_iff (l : List AddrArg) : (mapValidate l).isOk = true ↔ ∀ x ∈ l, x.valid = true := by
+  cases h : mapValidate l with
+  | ok a => simp [Res.isOk]; exact ((mapValidate_ok_iff l a).mp h).1
+  | error e =>
+    simp only [Res.isOk, Bool.false_eq_true, false_iff]
+    intro hall
+    have := (mapValidate_ok_iff l (l.map (·.text))).mpr ⟨hall, rfl⟩
+    rw [h] at this; cases this
+
+/-- C17 (whitelist), instantiation: it succeeds exactly when every submitted admin validates, and stores exactly
+the submitted list and flag. -/
+theorem Wl.instantiate_ok_iff (m0 : Cw1Whitelist.InstMsg) (s0 : Cw1Whitelist.State) :
+    Cw1Whitelist.instantiate m0 = .ok s0 ↔
+      (∀ x ∈ m0.admins, x.valid = true) ∧ s0 = ⟨m0.admins.map (·.text), m0.mutable⟩ := by
+  simp only [Cw1Whitelist.instantiate, Res.bind_ok, Res.pure_ok]
+  constructor
+  · rintro ⟨a, ha, rfl⟩
+    obtain ⟨h1, rfl⟩ := (mapValidate_ok_iff _ _).mp ha
+    exact ⟨h1, rfl⟩
+  · rintro ⟨h1, rfl⟩
+    exact ⟨_, (mapValidate_ok_iff _ _).mpr ⟨h1, rfl⟩, rfl⟩
+
+/-- C17 (whitelist): an immutable instantiation is frozen from the start — no history changes anything. -/
+theorem Wl.immutable_instantiation {m0 : Cw1Whitelist.InstMsg} {s0 : Cw1Whitelist.State}
+    (h : Cw1Whitelist.instantiate m0 = .ok s0) (hm : m0.mutable = false)
+    (ops : List (Block × Addr × Cw1Whitelist.Msg)) : Wl.run s0 ops = s0 := by
+  obtain ⟨_, rfl⟩ := (Wl.instantiate_ok_iff m0 s0).mp h
+  exact Wl.frozen_forever hm ops
+
+/-- C17 (whitelist), `UpdateAdmins` succeeds exactly when the contract is mutable, the caller is a current admin
+and every submitted entry validates. -/
+theorem Wl.updateAdmins_ok_iff (s : Cw1Whitelist.State) (blk : Block) (snd : Addr) (l : List AddrArg) :
+    (Cw1Whitelist.execute s blk snd (.updateAdmins l)).isOk = true ↔
+      s.mutable = true ∧ snd ∈ s.admins ∧ ∀ x ∈ l, x.valid = true := by
+  constructor
+  · intro h
+    cases hr : Cw1Whitelist.execute s blk snd (.updateAdmins l) with
+    | error e => rw [hr] at h; cases h
+    | ok r =>
+      obtain ⟨s', out⟩ := r
+      have hc := Wl.execute_cases hr
+      simp only at hc
+      obtain ⟨h1, h2, a, ha, _⟩ := hc
+      exact ⟨h1, h2, ((mapValidate_ok_iff l a).mp ha).1⟩
+  · rintro ⟨h1, h2, h3⟩
+    have hv := (mapValidate_ok_iff l _).mpr ⟨h3, rfl⟩
+    simp [Cw1Whitelist.execute, Cw1Whitelist.execUpdateAdmins, AdminList.canModify, AdminList.isAdmin, h1, h2, hv,
+      check, bind, Except.bind, pure, Except.pure, Res.isOk]
+
+/-- C17 (whitelist), "the admin list is set to exactly the submitted list": a successful `UpdateAdmins` stores the
+submitted strings in order, duplicates kept, leaves the flag alone and relays nothing. -/
+theorem Wl.updateAdmins_exact {s s' : Cw1Whitelist.State} {blk : Block} {snd : Addr} {l : List AddrArg}
+    {out : List CosmosMsg} (h : Cw1Whitelist.execute s blk snd (.updateAdmins l) = .ok (s', out)) :
+    s' = ⟨l.map (·.text), s.mutable⟩ ∧ out = [] := by
+  have hc := Wl.execute_cases h
+  simp only at hc
+  obtain ⟨_, _, a, ha, rfl⟩ := hc
+  obtain ⟨_, rfl⟩ := (mapValidate_ok_iff l a).mp ha
+  refine ⟨rfl, ?_⟩
+  by_cases hne : out = []
+  · exact hne
+  · obtain ⟨msgs, hm⟩ := C07.Wl.only_execute_relays h hne; cases hm
+
+/-- C17 (whitelist), `Freeze` succeeds exactly when the contract is mutable and the caller is a current admin. -/
+theorem Wl.freeze_ok_iff (s : Cw1Whitelist.State) (blk : Block) (snd : Addr) :
+    (Cw1Whitelist.execute s blk snd .freeze).isOk = true ↔ s.mutable = true ∧ snd ∈ s.admins := by
+  constructor
+  · intro h
+    cases hr : Cw1Whitelist.execute s blk snd .freeze with
+    | error e => rw [hr] at h; cases h
+    | ok r =>
+      obtain ⟨s', out⟩ := r
+      have hc := Wl.execute_cases hr
+      exact ⟨hc.1, hc.2.1⟩
+  · rintro ⟨h1, h2⟩
+    simp [Cw1Whitelist.execute, Cw1Whitelist.execFreeze, AdminList.canModify, AdminList.isAdmin, h1, h2,
+      check, bind, Except.bind, pure, Except.pure, Res.isOk]
+
+/-- C17 (whitelist): a successful `Freeze` clears the flag and keeps the admin list. -/
+theorem Wl.freeze_exact {s s' : Cw1Whitelist.State} {blk : Block} {snd : Addr} {out : List CosmosMsg}
+    (h : Cw1Whitelist.execute s blk snd .freeze = .ok (s', out)) : s' = ⟨s.admins, false⟩ := by
+  have hc := Wl.execute_cases h
+  exact hc.2.2
+
+/-- The two history functions of cw1-subkeys (`C07.Sk.run`, `C17.Sk.run`) are the same function. -/
+theorem Sk.run_eq_C07 : @Sk.run = @C07.Sk.run := rfl
+
+theorem Sk.run_cons (s : Cw1Subkeys.State) (op : Block × Addr × Cw1Subkeys.Msg) (rest : List (Block × Addr × Cw1Subkeys.Msg)) :
+    Sk.run s (op :: rest) = Sk.run (Cw1Subkeys.step s op.1 op.2.1 op.2.2) rest := rfl
+
+theorem Sk.run_append (s : Cw1Subkeys.State) (a b : List (Block × Addr × Cw1Subkeys.Msg)) :
+    Sk.run s (a ++ b) = Sk.run (Sk.run s a) b := by
+  simp [Sk.run, List.foldl_append]
+
+/-- C17 (subkeys), instantiation: succeeds exactly when every submitted admin validates; stores exactly the
+submitted list and flag, and no grants. -/
+theorem Sk.instantiate_ok_iff (m0 : Cw1Subkeys.InstMsg) (s0 : Cw1Subkeys.State) :
+    Cw1Subkeys.instantiate m0 = .ok s0 ↔
+      (∀ x ∈ m0.admins, x.valid = true) ∧
+      s0 = { cfg := ⟨m0.admins.map (·.text), m0.mutable⟩, allowances := [], permissions := [],
+             cw2 := some ⟨Cw1Subkeys.CONTRACT_NAME, some Cw1Subkeys.CONTRACT_VERSION⟩ } := by
+  simp only [Cw1Subkeys.instantiate, Res.bind_ok, Res.pure_ok]
+  constructor
+  · rintro ⟨c, hc, rfl⟩
+    obtain ⟨h1, rfl⟩ := (Wl.instantiate_ok_iff m0 c).mp hc
+    exact ⟨h1, rfl⟩
+  · rintro ⟨h1, rfl⟩
+    exact ⟨_, (Wl.instantiate_ok_iff m0 _).mpr ⟨h1, rfl⟩, rfl⟩
+
+/-- C17 (subkeys), `UpdateAdmins` succeeds exactly when the contract is mutable, the caller is a current admin
+and every submitted entry validates. -/
+theorem Sk.updateAdmins_ok_iff (s : Cw1Subkeys.State) (blk : Block) (snd : Addr) (l : List AddrArg) :
+    (Cw1Subkeys.execute s blk snd (.updateAdmins l)).isOk = true ↔
+      s.cfg.mutable = true ∧ s.cfg.isAdmin snd = true ∧ ∀ x ∈ l, x.valid = true := by
+  constructor
+  · intro h
+    cases hr : Cw1Subkeys.execute s blk snd (.updateAdmins l) with
+    | error e => rw [hr] at h; cases h
+    | ok r =>
+      obtain ⟨s', out⟩ := r
+      have hc := Sk.execute_cases hr
+      simp only at hc
+      obtain ⟨h1, h2, a, ha, _⟩ := hc
+      exact ⟨h1, h2, ((mapValidate_ok_iff l a).mp ha).1⟩
+  · rintro ⟨h1, h2, h3⟩
+    have hv := (mapValidate_ok_iff l _).mpr ⟨h3, rfl⟩
+    simp [Cw1Subkeys.execute, Cw1Subkeys.execUpdateAdmins, Cw1Whitelist.execUpdateAdmins, AdminList.canModify,
+      h1, h2, hv, check, bind, Except.bind, pure, Except.pure, Res.isOk]
+
+/-- C17 (subkeys), "the admin list is set to exactly the submitted list": a successful `UpdateAdmins` stores the
+submitted strings in order, duplicates kept; flag, allowances, permissions and the cw2 item stay; nothing is relayed. -/
+theorem Sk.updateAdmins_exact {s s' : Cw1Subkeys.State} {blk : Block} {snd : Addr} {l : List AddrArg}
+    {out : List CosmosMsg} (h : Cw1Subkeys.execute s blk snd (.updateAdmins l) = .ok (s', out)) :
+    s' = { s with cfg := ⟨l.map (·.text), s.cfg.mutable⟩ } ∧ out = [] := by
+  have hc := Sk.execute_cases h
+  simp only at hc
+  obtain ⟨_, _, a, ha, rfl⟩ := hc
+  obtain ⟨_, rfl⟩ := (mapValidate_ok_iff l a).mp ha
+  refine ⟨rfl, ?_⟩
+  by_cases hne : out = []
+  · exact hne
+  · obtain ⟨msgs, hm⟩ := C07.Sk.only_execute_relays h hne; cases hm
+
+/-- C17 (subkeys), `Freeze` succeeds exactly when the contract is mutable and the caller is a current admin. -/
+theorem Sk.freeze_ok_iff (s : Cw1Subkeys.State) (blk : Block) (snd : Addr) :
+    (Cw1Subkeys.execute s blk snd .freeze).isOk = true ↔ s.cfg.mutable = true ∧ s.cfg.isAdmin snd = true := by
+  constructor
+  · intro h
+    cases hr : Cw1Subkeys.execute s blk snd .freeze with
+    | error e => rw [hr] at h; cases h
+    | ok r =>
+      obtain ⟨s', out⟩ := r
+      have hc := Sk.execute_cases hr
+      exact ⟨hc.1, hc.2.1⟩
+  · rintro ⟨h1, h2⟩
+    simp [Cw1Subkeys.execute, Cw1Subkeys.execFreeze, Cw1Whitelist.execFreeze, AdminList.canModify, h1, h2,
+      check, bind, Except.bind, pure, Except.pure, Res.isOk]
+
+/-- C17 (subkeys), `SetPermissions` succeeds exactly when the caller is a current admin and the spender is a
+validated address different from the caller (mutability is irrelevant: grants can be changed on a frozen contract). -/
+theorem Sk.setPermissions_ok_iff (s : Cw1Subkeys.State) (blk : Block) (snd : Addr) (sp : AddrArg) (p : Permissions) :
+    (Cw1Subkeys.execute s blk snd (.setPermissions sp p)).isOk = true ↔
+      s.cfg.isAdmin snd = true ∧ sp.valid = true ∧ sp.text ≠ snd := by
+  constructor
+  · intro h
+    cases hr : Cw1Subkeys.execute s blk snd (.setPermissions sp p) with
+    | error e => rw [hr] at h; cases h
+    | ok r =>
+      obtain ⟨s', out⟩ := r
+      have hc := Sk.execute_cases hr
+      exact ⟨hc.1, hc.2.1, hc.2.2.1⟩
+  · rintro ⟨h1, h2, h3⟩
+    simp [Cw1Subkeys.execute, Cw1Subkeys.execSetPermissions, h1, h2, h3,
+      check, bind, Except.bind, pure, Except.pure, Res.isOk]
+
+/-- C17 (subkeys): a successful `SetPermissions` stores exactly the submitted record for the spender, touches
+nobody else's permissions, no allowance and not the admin configuration, and relays nothing. -/
+theorem Sk.setPermissions_exact {s s' : Cw1Subkeys.State} {blk : Block} {snd : Addr} {sp : AddrArg} {p : Permissions}
+    {out : List CosmosMsg} (h : Cw1Subkeys.execute s blk snd (.setPermissions sp p) = .ok (s', out)) :
+    s'.permissions.get? sp.text = some p ∧ (∀ y, y ≠ sp.text → s'.permissions.get? y = s.permissions.get? y) ∧
+      s'.allowances = s.allowances ∧ s'.cfg = s.cfg ∧ out = [] := by
+  have hc := Sk.execute_cases h
+  simp only at hc
+  obtain ⟨_, _, _, rfl⟩ := hc
+  refine ⟨by simp, fun y hy => AMap.get?_set_ne _ _ _ _ (Ne.symm hy), rfl, rfl, ?_⟩
+  by_cases hne : out = []
+  · exact hne
+  · obtain ⟨msgs, hm⟩ := C07.Sk.only_execute_relays h hne; cases hm
+
+/-! ## History forms -/
+
+/-- C17 (subkeys): the flag never comes back — if a history ends mutable it started mutable (and, by the same
+argument applied to every suffix, was mutable all the way). -/
+theorem Sk.mutable_never_returns {s : Cw1Subkeys.State} {ops : List (Block × Addr × Cw1Subkeys.Msg)}
+    (h : (Sk.run s ops).cfg.mutable = true) : s.cfg.mutable = true := by
+  cases hm : s.cfg.mutable with
+  | true => rfl
+  | false => rw [Sk.frozen_forever hm ops, hm] at h; cases h
+
+theorem Wl.mutable_never_returns {s : Cw1Whitelist.State} {ops : List (Block × Addr × Cw1Whitelist.Msg)}
+    (h : (Wl.run s ops).mutable = true) : s.mutable = true := by
+  cases hm : s.mutable with
+  | true => rfl
+  | false => rw [Wl.frozen_forever hm ops, hm] at h; cases h
+
+/-- C17 (subkeys), history form of "the admin list changes only via `UpdateAdmins` sent by a current admin while
+mutable": if a history changed the admin list, it contains a *successful* `UpdateAdmins` whose sender was, at that
+point of the history, a current admin of a still mutable contract.  In particular an admin removed earlier in the
+history is not that sender unless it was re-added. -/
+theorem Sk.run_admins_changed {s : Cw1Subkeys.State} {ops : List (Block × Addr × Cw1Subkeys.Msg)}
+    (h : (Sk.run s ops).cfg.admins ≠ s.cfg.admins) :
+    ∃ pre blk snd l post, ops = pre ++ (blk, snd, .updateAdmins l) :: post ∧
+      (Sk.run s pre).cfg.mutable = true ∧ (Sk.run s pre).cfg.isAdmin snd = true ∧
+      (Cw1Subkeys.execute (Sk.run s pre) blk snd (.updateAdmins l)).isOk = true := by
+  induction ops generalizing s with
+  | nil => exact absurd rfl h
+  | cons op rest ih =>
+    obtain ⟨blk, snd, m⟩ := op
+    by_cases hstep : (Cw1Subkeys.step s blk snd m).cfg.admins = s.cfg.admins
+    · rw [Sk.run_cons] at h
+      obtain ⟨pre, blk', snd', l, post, he, h1, h2, h3⟩ := ih (s := Cw1Subkeys.step s blk snd m) (by simpa [hstep] using h)
+      exact ⟨(blk, snd, m) :: pre, blk', snd', l, post, by rw [he]; rfl, h1, h2, h3⟩
+    · obtain ⟨hm, ha, l, rfl⟩ := Sk.admins_change_auth hstep
+      refine ⟨[], blk, snd, l, rest, rfl, hm, ha, ?_⟩
+      show (Cw1Subkeys.execute s blk snd (.updateAdmins l)).isOk = true
+      cases hr : Cw1Subkeys.execute s blk snd (.updateAdmins l) with
+      | ok r => rfl
+      | error e => simp [Cw1Subkeys.step, hr] at hstep
+
+/-- C17 (whitelist), the same history form. -/
+theorem Wl.run_admins_changed {s : Cw1Whitelist.State} {ops : List (Block × Addr × Cw1Whitelist.Msg)}
+    (h : (Wl.run s ops).admins ≠ s.admins) :
+    ∃ pre blk snd l post, ops = pre ++ (blk, snd, .updateAdmins l) :: post ∧
+      (Wl.run s pre).mutable = true ∧ snd ∈ (Wl.run s pre).admins ∧ ∀ x ∈ l, x.valid = true := by
+  induction ops generalizing s with
+  | nil => exact absurd rfl h
+  | cons op rest ih =>
+    obtain ⟨blk, snd, m⟩ := op
+    by_cases hstep : (Cw1Whitelist.step s blk snd m).admins = s.admins
+    · have h' : (Wl.run (Cw1Whitelist.step s blk snd m) rest).admins ≠ (Cw1Whitelist.step s blk snd m).admins := by
+        rw [hstep]; exact h
+      obtain ⟨pre, blk', snd', l, post, he, h1, h2, h3⟩ := ih h'
+      exact ⟨(blk, snd, m) :: pre, blk', snd', l, post, by rw [he]; rfl, h1, h2, h3⟩
+    · obtain ⟨hm, ha, l, rfl⟩ := Wl.admins_change_auth hstep
+      refine ⟨[], blk, snd, l, rest, rfl, hm, ha, ?_⟩
+      cases hr : Cw1Whitelist.execute s blk snd (.updateAdmins l) with
+      | ok r => exact ((Wl.updateAdmins_ok_iff s blk snd l).mp (by rw [hr]; rfl)).2.2
+      | error e => simp [Cw1Whitelist.step, hr] at hstep
+
+/-- A contract without admins cannot change its admin configuration. -/
+theorem Sk.step_no_admins {s : Cw1Subkeys.State} (hn : s.cfg.admins = []) (blk : Block) (snd : Addr)
+    (m : Cw1Subkeys.Msg) : (Cw1Subkeys.step s blk snd m).cfg = s.cfg ∧
+      (Cw1Subkeys.step s blk snd m).permissions = s.permissions ∧
+      ∀ x, (Cw1Subkeys.step s blk snd m).allowances.get? x ≠ s.allowances.get? x → x = snd ∧ ∃ msgs, m = .execute msgs := by
+  have hna : s.cfg.isAdmin snd = false := by simp [AdminList.isAdmin, hn]
+  refine ⟨?_, ?_, ?_⟩
+  · cases hm : s.cfg.mutable with
+    | false => exact Sk.step_frozen hm blk snd m
+    | true =>
+      by_cases h1 : (Cw1Subkeys.step s blk snd m).cfg.admins = s.cfg.admins
+      · by_cases h2 : (Cw1Subkeys.step s blk snd m).cfg.mutable = s.cfg.mutable
+        · cases hc : (Cw1Subkeys.step s blk snd m).cfg; cases hc' : s.cfg; simp_all
+        · have := (Sk.mutable_change_auth h2).2.1; rw [hna] at this; cases this
+      · have := (Sk.admins_change_auth h1).2.1; rw [hna] at this; cases this
+  · apply Classical.byContradiction
+    intro hp
+    have : ∃ x, (Cw1Subkeys.step s blk snd m).permissions.get? x ≠ s.permissions.get? x := by
+      apply Classical.byContradiction
+      intro hall
+      simp only [not_exists, Classical.not_not] at hall
+      unfold Cw1Subkeys.step at hp hall
+      split at hp
+      · rename_i s' out he
+        have hc := Sk.execute_cases he
+        cases m with
+        | execute msgs => exact hp hc.2.1
+        | freeze => simp at hc; rw [hna] at hc; cases hc.2.1
+        | updateAdmins l => simp at hc; rw [hna] at hc; cases hc.2.1
+        | increaseAllowance sp c e => simp at hc; rw [hna] at hc; cases hc.1
+        | decreaseAllowance sp c e => simp at hc; rw [hna] at hc; cases hc.1
+        | setPermissions sp p => simp at hc; rw [hna] at hc; cases hc.1
+      · exact hp rfl
+    obtain ⟨x, hx⟩ := this
+    have := (Sk.permissions_change_cases hx).1
+    rw [hna] at this; cases this
+  · intro x hx
+    rcases Sk.allowance_change_cases hx with ⟨ha, _⟩ | ⟨_, hxs, hm⟩
+    · rw [hna] at ha; cases ha
+    · exact ⟨hxs, hm⟩
+
+/-- C17 (observation, lock-out): `UpdateAdmins []` is a second way to freeze.  Once the admin list is empty no
+history changes the admin configuration or any permission, and allowances change only by their holders' own
+spending (which only lowers them, C08). -/
+theorem Sk.no_admins_forever {s : Cw1Subkeys.State} (hn : s.cfg.admins = [])
+    (ops : List (Block × Addr × Cw1Subkeys.Msg)) :
+    (Sk.run s ops).cfg = s.cfg ∧ (Sk.run s ops).permissions = s.permissions := by
+  induction ops generalizing s with
+  | nil => exact ⟨rfl, rfl⟩
+  | cons op rest ih =>
+    rw [Sk.run_cons]
+    obtain ⟨h1, h2, _⟩ := Sk.step_no_admins hn op.1 op.2.1 op.2.2
+    obtain ⟨i1, i2⟩ := ih (s := Cw1Subkeys.step s op.1 op.2.1 op.2.2) (by rw [h1]; exact hn)
+    exact ⟨i1.trans h1, i2.trans h2⟩
+
+/-- One transaction of a mixed history (execute message or migration) leaves a frozen admin configuration alone. -/
+theorem Sk.opStep_frozen {s : Cw1Subkeys.State} (hf : s.cfg.mutable = false) (op : Cw1SubkeysMigrate.Op) :
+    (Cw1SubkeysMigrate.opStep s op).cfg = s.cfg := by
+  cases op with
+  | exec blk snd m => exact Sk.step_frozen hf blk snd m
+  | migrate =>
+    simp only [Cw1SubkeysMigrate.opStep]
+    split
+    · rename_i s' hm; exact (Cw1SubkeysMigrate.migrate_frame hm).1
+    · rfl
+
+/-- C17 (subkeys), freezing is permanent over **mixed** histories too: no interleaving of execute messages by anybody
+and contract migrations changes the admin list or the flag of a frozen contract. -/
+theorem Sk.frozen_forever_with_migrations {s : Cw1Subkeys.State} (hf : s.cfg.mutable = false)
+    (ops : List Cw1SubkeysMigrate.Op) : (Cw1SubkeysMigrate.run s ops).cfg = s.cfg := by
+  induction ops generalizing s with
+  | nil => rfl
+  | cons op rest ih =>
+    simp only [Cw1SubkeysMigrate.run, List.foldl_cons]
+    have h1 := Sk.opStep_frozen hf op
+    have := ih (s := Cw1SubkeysMigrate.opStep s op) (by rw [h1]; exact hf)
+    simp only [Cw1SubkeysMigrate.run] at this
+    rw [this, h1]
+
+/-- A mixed history without migrations is an ordinary history. -/
+theorem Sk.migrate_run_exec (s : Cw1Subkeys.State) (ops : List (Block × Addr × Cw1Subkeys.Msg)) :
+    Cw1SubkeysMigrate.run s (ops.map fun op => .exec op.1 op.2.1 op.2.2) = Sk.run s ops := by
+  induction ops generalizing s with
+  | nil => rfl
+  | cons op rest ih =>
+    simp only [Cw1SubkeysMigrate.run, Sk.run, List.map_cons, List.foldl_cons, Cw1SubkeysMigrate.opStep] at ih ⊢
+    exact ih _
+
 /-! ## non-vacuity -/
 
 def wl0 : Cw1Whitelist.State := ⟨["a", "b"], true⟩
@@ -416,5 +777,28 @@ example : (Sk.run exState [(blk50, "admin", .freeze), (blk50, "admin", .updateAd
 example : (Cw1Subkeys.step exState blk50 "sub" (.setPermissions ⟨true, "sub2"⟩ ⟨true, true, true, true⟩)) = exState := by decide
 example : (Cw1Subkeys.step exState blk50 "admin" (.setPermissions ⟨true, "sub2"⟩ ⟨true, true, true, true⟩)).permissions.get? "sub2"
     = some ⟨true, true, true, true⟩ := by decide
+
+/-- the guarded calls do succeed: `updateAdmins_ok_iff`, `freeze_ok_iff`, `setPermissions_ok_iff` right to left -/
+example : (Cw1Whitelist.execute wl0 blk "a" (.updateAdmins [⟨true, "c"⟩, ⟨true, "c"⟩])).isOk = true :=
+  (Wl.updateAdmins_ok_iff wl0 blk "a" _).mpr (by decide)
+example : Cw1Whitelist.step wl0 blk "a" (.updateAdmins [⟨true, "c"⟩, ⟨true, "b"⟩, ⟨true, "c"⟩]) = ⟨["c", "b", "c"], true⟩ := by decide
+example : (Cw1Whitelist.execute wl0 blk "a" (.updateAdmins [⟨true, "c"⟩, ⟨false, "C"⟩])).isOk = false := by decide
+example : (Cw1Subkeys.execute exState blk50 "admin" .freeze).isOk = true :=
+  (Sk.freeze_ok_iff exState blk50 "admin").mpr (by decide)
+example : (Cw1Subkeys.execute exState blk50 "admin" (.setPermissions ⟨true, "sub"⟩ ⟨false, false, false, false⟩)).isOk = true :=
+  (Sk.setPermissions_ok_iff exState blk50 "admin" _ _).mpr (by decide)
+example : (Cw1Subkeys.execute exState blk50 "admin" (.setPermissions ⟨true, "admin"⟩ ⟨false, false, false, false⟩)).isOk = false := by decide
+/-- `run_admins_changed`: a history that changes the list -/
+example : (Sk.run exState [(blk50, "sub", .freeze), (blk50, "admin", .updateAdmins [⟨true, "sub"⟩])]).cfg.admins ≠ exState.cfg.admins := by decide
+/-- lock-out: after `UpdateAdmins []` the former admin is powerless although the contract is still "mutable" -/
+example : (Sk.run exState [(blk50, "admin", .updateAdmins []), (blk50, "admin", .updateAdmins [⟨true, "admin"⟩]),
+    (blk50, "admin", .setPermissions ⟨true, "x"⟩ ⟨true, true, true, true⟩)]) = { exState with cfg := ⟨[], true⟩ } := by decide
+example : Wl.run ⟨["a"], false⟩ [(blk, "a", .updateAdmins [⟨true, "c"⟩]), (blk, "a", .freeze)] = ⟨["a"], false⟩ :=
+  Wl.immutable_instantiation (m0 := ⟨[⟨true, "a"⟩], false⟩) rfl rfl _
+
+/-- frozen, then a migration from an older version and an update attempt: the configuration stays -/
+example : (Cw1SubkeysMigrate.run { exState with cfg := ⟨["admin"], false⟩, cw2 := some ⟨"x", some ⟨1, 0, 0, none⟩⟩ }
+    [.migrate, .exec blk50 "admin" (.updateAdmins [⟨true, "sub"⟩])]).cfg = ⟨["admin"], false⟩ :=
+  Sk.frozen_forever_with_migrations rfl _
 
 end CwPlus.Props.C17
